@@ -73,6 +73,9 @@ func (msg *Message) DecodeMsg(dc *msgp.Reader) error {
 		return msgp.WrapError(err, "Array Header")
 	}
 
+	// a reused receiver must not keep the options of an earlier message
+	msg.Options = nil
+
 	if msg.Tag, err = dc.ReadString(); err != nil {
 		return msgp.WrapError(err, "Tag")
 	}
@@ -113,6 +116,9 @@ func (msg *Message) UnmarshalMsg(bits []byte) ([]byte, error) {
 	if sz, bits, err = msgp.ReadArrayHeaderBytes(bits); err != nil {
 		return bits, msgp.WrapError(err, "Array Header")
 	}
+
+	// a reused receiver must not keep the options of an earlier message
+	msg.Options = nil
 
 	if msg.Tag, bits, err = msgp.ReadStringBytes(bits); err != nil {
 		return bits, msgp.WrapError(err, "Tag")
@@ -205,6 +211,9 @@ func (msg *MessageExt) DecodeMsg(dc *msgp.Reader) error {
 		return msgp.WrapError(err, "Array Header")
 	}
 
+	// a reused receiver must not keep the options of an earlier message
+	msg.Options = nil
+
 	if msg.Tag, err = dc.ReadString(); err != nil {
 		return msgp.WrapError(err, "Tag")
 	}
@@ -245,6 +254,9 @@ func (msg *MessageExt) UnmarshalMsg(bits []byte) ([]byte, error) {
 	if sz, bits, err = msgp.ReadArrayHeaderBytes(bits); err != nil {
 		return bits, msgp.WrapError(err, "Array Header")
 	}
+
+	// a reused receiver must not keep the options of an earlier message
+	msg.Options = nil
 
 	if msg.Tag, bits, err = msgp.ReadStringBytes(bits); err != nil {
 		return bits, msgp.WrapError(err, "Tag")
